@@ -616,3 +616,42 @@ def dominated_incl_flags(f, a_pts, p):
         if defs and all(d['point'] is not None and any(f.cfg.dominates(a, d['point']) for a in a_pts) for d in defs):
             return True
     return False
+
+
+# ---- what a branch edge establishes -------------------------------------------------------------
+_NEG = {'<': '>=', '<=': '>', '>': '<=', '>=': '<', '==': '!=', '!=': '=='}
+_SWAP = {'<': '>', '<=': '>=', '>': '<', '>=': '<=', '==': '==', '!=': '!='}
+
+
+def edge_relation(f, cond, k):
+    """the relation (lhs path, op, rhs path) that holds on successor edge k (0 = true edge) of a comparison condition,
+    negations unfolded; None if the condition is not a comparison.  A boolean call / variable test B gives (path(B), '!=', '0')
+    on its true edge."""
+    cs = f.s(f.strip_casts(cond))
+    taken = (k == 0)
+    while cs is not None and cs['k'] == 'UnaryOperator' and cs.get('op') == '!':
+        taken = not taken
+        cs = f.s(f.strip_casts(cs['ch'][0]))
+    if cs is None:
+        return None
+    if cs['k'] == 'BinaryOperator' and cs.get('op') in _NEG:
+        op = cs['op'] if taken else _NEG[cs['op']]
+        return f.path(cs['ch'][0]), op, f.path(cs['ch'][1])
+    p = f.path(cs['i'])
+    if p and p != '?':
+        return p, ('!=' if taken else '=='), '0'
+    return None
+
+
+def edge_holds(f, cond, k, lhs, op, rhs):
+    """does edge k of cond establish `lhs op rhs` (paths compared textually, operands may be swapped)?"""
+    r = edge_relation(f, cond, k)
+    if r is None:
+        return False
+    l, o, rr = r
+    implied = {'<': ('<', '<=', '!='), '<=': ('<=',), '>': ('>', '>=', '!='), '>=': ('>=',), '==': ('==', '<=', '>='), '!=': ('!=',)}
+    if l == lhs and rr == rhs and op in implied[o]:
+        return True
+    if l == rhs and rr == lhs and op in implied[_SWAP[o]]:
+        return True
+    return False
